@@ -565,6 +565,8 @@ def gen_mtl_program(rng, dtype="float64", n_heads=None, n_features=None, allow_a
 def reference_jacobian(outputs, inputs) -> list[torch.Tensor]:
     """For each input, the matrix [sum of output scalars, input.numel()] of d out_scalar / d input."""
     rows = []
+    if not inputs:
+        return []
     for out in outputs:
         flat = out.reshape(-1)
         for i in range(flat.numel()):
